@@ -13,7 +13,7 @@
     validated by reopening the real engine on every prefix of the physical commit log of
     random histories (`engine crash`), not proved. *)
 From QV Require Import Common.Prelude WriteBehind.Model WriteBehind.Order.
-From QV Require Engine.Model Engine.Core Engine.CoreSpec Engine.CoreCancel.
+From QV Require Engine.Model Engine.Core Engine.CoreSpec Engine.CoreCancel Engine.MdlSpec Engine.MdlCancel.
 From Coq Require Import Permutation.
 
 Theorem C08_store_is_batch_prefix : forall more bs evs1 evs2,
@@ -41,6 +41,19 @@ Theorem C08_core_sound_after_crash :
     Spec p (cinputs_after (firstn i ops)) n z.
 Proof. intros fuel p before partial after i n r z ops. exact (CoreCancel.C05_core_cancel_sound fuel p ops i n r z). Qed.
 
+(** the same for the full model (every query kind, external inputs) *)
+Import Engine.MdlSpec Engine.MdlCancel.
+Theorem C08_model_sound_after_crash :
+  forall fuel pfuel p before partial after i n r z,
+    let ops := map MUser before ++ partial ++ [MUser ORestart] ++ map MUser after in
+    wf_model_x p -> mcsessions_fuelled fuel pfuel p ops i -> mpartials_ok fuel pfuel p ops i ->
+    nth_error ops i = Some (MUser (OQuery n)) ->
+    nth_error (mrun_cancel_f fuel pfuel p init_state ops) i = Some (Some r) -> r_out r = RValue z ->
+    MdlSpecX p (minputs_after (firstn i ops),
+                ext_after_c (firstn (S i) ops) (firstn (S i) (mexecs_cancel_f fuel pfuel p init_state ops))) n z.
+Proof. exact MdlCancel.model_sound_after_crash_x. Qed.
+
 Print Assumptions C08_store_is_batch_prefix.
+Print Assumptions C08_model_sound_after_crash.
 Print Assumptions C08_store_content.
 Print Assumptions C08_core_sound_after_crash.
